@@ -1,13 +1,14 @@
 """C11 case generator: matrix resizing histories  (11 1 start (op ...)).
    start: (0 rows) Matrix::from | (1 r c data) from_flat_row_major | (2 v) from_scalar | (3 vs) row
-   | (4 vs) column.   op: (0 r v) insert_row | (1 r vs) insert_row_with | (2 c v) insert_column |
+   | (4 vs) column | (5 r c) from_fn | (6 r c v) empty.   op: (0 r v) insert_row | (1 r vs) insert_row_with | (2 c v) insert_column |
    (3 c vs) insert_column_with | (4 r) remove_row | (5 c) remove_column | (6 S S) retain_mut |
    (7 S S) m = m.retain | (8) m = m.transpose() | (9) transpose_mut | (10 r c v) set | (11 k) map_mut
    | (12 k) map_mut_with_index.  S: (0) All (1) None (2 i) Single (3 a b) Range (4 S) Not (5 S S) And
    (6 S S) Or.  Result: (2) constructor panicked, or (0 (obs (o obs)...)) with o = 0 returned /
    2 panicked and obs = (size, all get(r,c), row_major_iter, column_major_iter, stored data) after
    EVERY step; the object keeps being used after a caught panic.
-   Exhaustive: every sequence of 2 operations (3 over a reduced alphabet in the thorough tier) over
+   Exhaustive: every sequence of 2 operations (and of 3 over a 16-operation alphabet; over a 37-operation
+   alphabet in the thorough tier) over
    the argument alphabet below from every start size <= 3x3; random histories up to length 40 with
    about one invalid argument in six; every constructor with empty / jagged / wrongly sized /
    overflowing input."""
@@ -55,6 +56,8 @@ def start_case(r, c, form):
         return [3, flat]
     if form == 4 and c == 1:
         return [4, flat]
+    if form == 5:
+        return [5, r, c]
     return [1, r, c, flat]
 
 
@@ -104,7 +107,7 @@ def alphabet(full):
 
 def random_history(rng, maxlen):
     r, c = rng.randrange(1, 5), rng.randrange(1, 5)
-    start = start_case(r, c, rng.randrange(5))
+    start = start_case(r, c, rng.randrange(6))
     f = Fresh()
     ops = []
     for _ in range(rng.randrange(1, maxlen + 1)):
@@ -190,6 +193,10 @@ def constructor_cases():
         yield sx([11, 1, [3, list(range(n))], [[9], [4, 0]]])
         yield sx([11, 1, [4, list(range(n))], [[9], [5, 0]]])
     yield sx([11, 1, [2, 42], [[4, 0], [5, 0], [6, NONE, ALL], [0, 1, 5], [2, 2, 6]]])
+    for r in range(0, 4):
+        for c in range(0, 4):
+            yield sx([11, 1, [5, r, c], [[9], [0, 0, 1]]])
+            yield sx([11, 1, [6, r, c, 7], [[9], [2, 0, 1]]])
 
 
 def gen(tier, rng):
@@ -202,14 +209,24 @@ def gen(tier, rng):
             for a in full:
                 for b in full:
                     form += 1
-                    yield sx([11, 1, start_case(r, c, form % 5), [a, b]])
+                    yield sx([11, 1, start_case(r, c, form % 6), [a, b]])
+    # every sequence of 3 operations over a tiny alphabet (valid and invalid arguments of every kind)
+    tiny = [[0, 1, 801], [1, 1, [811, 812, 813]], [2, 0, 821], [3, 2, [831, 832, 833, 834]], [4, 0], [4, 3], [5, 1],
+            [6, single(1), ALL], [6, ALL, not_(single(0))], [7, NONE, ALL], [8], [9], [10, 1, 1, 841], [10, 0, 3, 842],
+            [11, 5], [12, 3]]
+    if quick:
+        for r in range(1, 4):
+            for c in range(1, 4):
+                for seq in itertools.product(tiny, repeat=3):
+                    form += 1
+                    yield sx([11, 1, start_case(r, c, form % 6), list(seq)])
     if not quick:
         small = alphabet(False)
         for r in range(1, 4):
             for c in range(1, 4):
                 for seq in itertools.product(small, repeat=3):
                     form += 1
-                    yield sx([11, 1, start_case(r, c, form % 5), list(seq)])
+                    yield sx([11, 1, start_case(r, c, form % 6), list(seq)])
     # every slice expression pair on a 4x4 and a 3x2 start
     for sr in SLICES:
         for sc in SLICES:
